@@ -20,7 +20,7 @@ PROPERTIES: dict[str, dict] = {
         "assumptions": COMMON_ASSUMPTIONS + ["bliss returns a canonical form for colour-isomorphic graphs", "igraph index convention table per version (spec.py)"],
     },
     "C02": {
-        "rules": ["R-CODEC", "R-KEYS", "R-ELEMTABLE", "R-LEX", "R-ATTRREAD", "R-REBUILD", "R-EXPRESS"],
+        "rules": ["R-CODEC", "R-KEYS", "R-ELEMTABLE", "R-LEX", "R-ATTRREAD", "R-REBUILD", "R-EXPRESS", "R-SYMZ"],
         "technique": "structural losslessness rules on serializer/parser + automata check of unique tokenisation",
         "explanation": "Necessary conditions of injectivity, each decided over all code paths: every edge / labelled atom / atom is emitted "
                        "(no filter), indices are label+1 and decoded as index-1, numbering is by atomic number first so the formula identifies "
@@ -49,7 +49,7 @@ PROPERTIES: dict[str, dict] = {
         "assumptions": COMMON_ASSUMPTIONS + ["igraph index convention table per version (spec.py)"],
     },
     "C05": {
-        "rules": ["R-SHAPE", "R-LAYOUT", "R-ZERO", "R-FLOW-SERIAL", "R-ELEMTABLE", "R-GRAM3", "R-CODEC", "R-REBUILD", "R-EXPRESS"],
+        "rules": ["R-SHAPE", "R-LAYOUT", "R-ZERO", "R-FLOW-SERIAL", "R-ELEMTABLE", "R-GRAM3", "R-CODEC", "R-REBUILD", "R-EXPRESS", "R-SYMZ"],
         "technique": "string-shape abstract interpretation of the serializer + regular-language inclusion in the EBNF automaton",
         "explanation": "The serializer's writer functions are evaluated symbolically (all paths) into a regular expression over grammar tokens and "
                        "typed integer holes; inclusion in L_EBNF(tucan) is decided by a product walk. Value holes are positive by R-ZERO; ascending / "
@@ -67,7 +67,7 @@ PROPERTIES: dict[str, dict] = {
         "assumptions": COMMON_ASSUMPTIONS + ["CTfile V3000 atom keyword list (spec.py)"],
     },
     "C07": {
-        "rules": ["R-KWEXACT", "R-ZERO", "R-ORDERING", "R-SPLICE", "R-TOKENS", "R-SIBKEYS", "R-PROV", "R-ALIAS", "R-WRAP", "R-INDEXSPACE", "R-GRAPHBUILD", "R-DISPATCH"],
+        "rules": ["R-KWEXACT", "R-ZERO", "R-ORDERING", "R-SPLICE", "R-TOKENS", "R-SIBKEYS", "R-PROV", "R-ALIAS", "R-WRAP", "R-INDEXSPACE", "R-GRAPHBUILD", "R-DISPATCH", "R-SYMZ"],
         "technique": "partial evaluation of token predicates over the spec's keyword set + heap-based taint analysis of the reader + CFG ordering rules",
         "explanation": "Keyword recognizers accept exactly their keyword; zero-valued explicit defaults never reach atom records; splicing precedes "
                        "tokenising and bond endpoints are validated before return; D/T pass through the shared helper; per-bond dictionaries are not shared.",
@@ -75,7 +75,7 @@ PROPERTIES: dict[str, dict] = {
         "assumptions": COMMON_ASSUMPTIONS + ["CTfile V3000 atom keyword list (spec.py)"],
     },
     "C08": {
-        "rules": ["R-COLS", "R-CHGTABLE", "R-SIBKEYS", "R-KILL", "R-SUPERSEDE", "R-ZERO", "R-PROV", "R-INDEXSPACE", "R-GRAPHBUILD", "R-FLOW-SERIAL", "R-FLOW-CANON", "R-DISPATCH"],
+        "rules": ["R-COLS", "R-CHGTABLE", "R-SIBKEYS", "R-KILL", "R-SUPERSEDE", "R-ZERO", "R-PROV", "R-INDEXSPACE", "R-GRAPHBUILD", "R-FLOW-SERIAL", "R-FLOW-CANON", "R-DISPATCH", "R-SYMZ"],
         "technique": "column-span checking via provenance labels and partial evaluation + kill/def analysis of the property block",
         "explanation": "Every column slice equals its CTfile field (atom, bond, counts and the affine property-entry layout for entries 1..8), the "
                        "charge-code table is the format's, both readers write the same keys, symbol-derived masses are never cleared, CHG/RAD lines "
